@@ -37,6 +37,7 @@
 #include <map>
 #include <memory>
 #include <set>
+#include <unistd.h>
 
 #include "hcommon.hh"
 
@@ -575,7 +576,12 @@ Result exec(const std::string& line) {
   stat("histories");
   stat("chunk_" + hdr[0]);
   stat("ops_total", (long)ops.size());
-  return Runner(s).run(ops);
+  // the property promises termination of every lookup (theorem search_terminates): a case that runs for 20 s (normal: milliseconds) is a hang;
+  // SIGALRM ends the process, check.py then reports this op line as the failing input instead of waiting for the batch timeout
+  alarm(20);
+  Result r = Runner(s).run(ops);
+  alarm(0);
+  return r;
 }
 
 // ---- generators ------------------------------------------------------------------------------------------
